@@ -15,6 +15,9 @@ Cases ==
   \cup {[transport |-> "ssh", stage |-> s, secret |-> c] :
           s \in {"kbd-hidden", "kbd-login-then-password", "kbd-echoed-passcode", "kbd-echoed-odd-prompts"}, c \in {"plain", "quotes", "nonascii"}}
   \cup {[transport |-> "tls", stage |-> s, secret |-> "key"] : s \in {"refused", "handshake-fails", "closed-after-handshake", "established"}}
+  (* client keys of the other kinds and encodings (SEC1, PKCS#1, PKCS#8; curves the TLS library takes and curves it refuses) *)
+  \cup {[transport |-> t, stage |-> s, secret |-> c] : t \in {"tls", "agent"}, s \in {"refused", "handshake-fails"},
+          c \in {"ec-p521-sec1", "ec-p256-sec1", "ec-secp256k1-sec1", "ec-p384-pkcs8", "ed25519-pkcs8", "rsa-pkcs1"}}
   \cup {[transport |-> "agent", stage |-> s, secret |-> c] : s \in {"refused", "handshake-fails", "closed-after-handshake"},
                                                         c \in {"key", "combined-pem"}}
   (* one agent process in daemon mode: a job that succeeds, then jobs that fail because the router is gone *)
